@@ -126,7 +126,7 @@ func init() {
 		Explanation: "For each of the twelve memory agents decides: (pause-gate) every Send on a data port and every RetrieveIncoming on a data port of the data path is reachable only with the control state excluding 'paused' (value-set analysis of the state field: refinement at comparisons, strong update at stores, havoc at calls that may store it, entry states joined over call sites), so a paused agent emits no data response and consumes no queued request; " +
 			"(serial-gate) the control port is dequeued only when the state excludes 'draining'; (dispatch) every path of the verb dispatch either leaves the request queued with no response, or dequeues it exactly once with exactly one response carrying the request's command, ID and source, or (Drain/Flush only) dequeues it silently after recording its ID and source and entering the draining state; " +
 			"(matrix) supported verbs answer success (Invalidate/Flush: success exactly when paused, otherwise the must-be-paused error), unsupported and unknown verbs answer the unsupported error — per mem/CONTROL_PROTOCOL.md's support matrix; (transitions) Pause lands in paused, Enable in enabled, Reset in enabled with every quiescence field re-initialised; " +
-			"(drain-ack) every acknowledgement of a Drain is sent only on a path that observed the draining state and consulted each of the agent's quiescence fields, answers the recorded ID/source, and leaves the paused state behind so it is sent once.",
+			"(drain-ack) every acknowledgement of a Drain is sent only on a path that observed the draining state and consulted each of the agent's quiescence fields, answers the recorded ID/source, and leaves the paused state behind so it is sent once. The per-agent quiescence list is extended by every State field that is a queueing.Buffer/Pipeline of request records (queues of the requests themselves), so drain-settle requires the drain-completion test to consult those queues as well.",
 		NotDecided:  "that the data path actually empties the quiescence fields (liveness of Drain); response order across agents; Flush write-back contents; behaviour of the flusher's eviction walk.",
 		Assumptions: []string{"the quiescence fields per agent are those named in mem/CONTROL_PROTOCOL.md, frozen in the rule"},
 	}, runC18)
@@ -134,6 +134,21 @@ func init() {
 
 func runC18(c *Ctx) {
 	for _, ag := range ctrlAgents {
+		// requests that sit in a queue of records (a pipeline or buffer whose
+		// elements are the requests themselves, not indices into a transaction
+		// table) are in flight: the drain-completion test must look at those
+		// queues too, whatever the protocol document lists
+		for _, q := range recordQueueFields(c.P, ag) {
+			has := false
+			for _, x := range ag.quiescence {
+				if x == q {
+					has = true
+				}
+			}
+			if !has {
+				ag.quiescence = append(append([]string{}, ag.quiescence...), q)
+			}
+		}
 		c18Gates(c, ag)
 		c18Dispatch(c, ag)
 		c18ResetQueues(c, ag)
@@ -1322,4 +1337,33 @@ func c18StallChangesNothing(c *Ctx, ag ctrlAgent) {
 		}
 	}
 	c.Check(n >= 4, "stall-changes-nothing", ag.rel+":instances", token.NoPos, "Control-port stall tests found ("+itoa(n)+")", "fewer than four CanSend tests on the Control port were found in "+ag.rel)
+}
+
+// recordQueueFields: direct fields of the agent's State that are a
+// queueing.Buffer/Pipeline whose element type is a struct (the queued request
+// itself).
+func recordQueueFields(p *Program, ag ctrlAgent) []string {
+	st := p.LookupType(ag.rel, "State")
+	if st == nil {
+		return nil
+	}
+	s, ok := st.Type().Underlying().(*types.Struct)
+	if !ok {
+		return nil
+	}
+	var out []string
+	for i := 0; i < s.NumFields(); i++ {
+		n, isN := s.Field(i).Type().(*types.Named)
+		if !isN || n.TypeArgs() == nil || n.TypeArgs().Len() != 1 {
+			continue
+		}
+		o := n.Origin().Obj()
+		if o.Pkg() == nil || o.Pkg().Path() != ModPath+"/queueing" || (o.Name() != "Buffer" && o.Name() != "Pipeline") {
+			continue
+		}
+		if _, isStruct := n.TypeArgs().At(0).Underlying().(*types.Struct); isStruct {
+			out = append(out, s.Field(i).Name())
+		}
+	}
+	return out
 }
